@@ -690,7 +690,7 @@ class _ClassBuilder:
                 if isinstance(base_slots, str):
                     base_slots = (base_slots,)
                 for name in base_slots:
-                    if name in self._attr_names:
+                    if name in self._attr_names or name == _HASH_CACHE_FIELD:
                         base_map[name] = base_cls
         self._slots = slots
         self._frozen = frozen
@@ -2323,7 +2323,7 @@ def _attrs_to_init_script(
     # would result in silent bugs.
     if does_cache_hash:
         if is_frozen:
-            if is_slotted:
+            if is_slotted or _is_slot_attr(_HASH_CACHE_FIELD, base_attr_map):
                 init_hash_cache = f"_setattr('{_HASH_CACHE_FIELD}', None)"
             else:
                 init_hash_cache = f"_inst_dict['{_HASH_CACHE_FIELD}'] = None"
